@@ -65,7 +65,11 @@ Record xst := { s_wei : nat -> Z; s_cb : bank; s_snap : option bank }.
 Inductive xop :=
 | XOp (o : op)                               (* CALL with value (refused without effect when the balance does not cover it) / SELFDESTRUCT *)
 | XFrame (body : list xop) (keep : bool)     (* a call frame; [keep = false]: it ends in a revert *)
-| XPre (bsend : option (nat * nat * Z)).     (* call of a Nibiru precompile: a query (None) or a bank send of n unibi from x to y *)
+| XPre (sends : list (nat * nat * Z)) (refuse : bool).
+    (* call of a Nibiru precompile whose body makes the listed bank sends (x, y, n unibi) one after the other:
+       [] = a query, one send = FunToken.bankMsgSend, several = Wasm.execute with funds and the bank messages the wasm
+       contract dispatches; [refuse]: the body also dispatches a message that the chain refuses inside a running EVM
+       state transition (MsgConvertCoinToEvm, MsgCreateFunToken, MsgEthereumTx): the call fails as a whole *)
 
 Definition op_uses (a : nat) (o : op) : bool :=
   match o with
@@ -87,10 +91,34 @@ Definition keep_frame (s0 s1 : xst) : xst :=
 
 Definition enter (s : xst) : xst := {| s_wei := s_wei s; s_cb := s_cb s; s_snap := None |}.
 
+Inductive xres3 := XStuck | XRefused | XDone (s : xst) (net : list op).
+
+(** the bank sends of a precompile body on the cache context, each followed by SyncStateDBWithAccount(from) and
+    SyncStateDBWithAccount(to): StateDB balance := bank balance x 10^12 *)
+Fixpoint xsends (c : xcfg) (U : list nat) (l : list (nat * nat * Z)) (s : xst) : xres3 :=
+  match l with
+  | [] => XDone s []
+  | (x, y, n) :: r =>
+      let M := x_module c in
+      if memb x U && memb y U && negb (Nat.eqb x M) && negb (Nat.eqb y M) then
+        if (n <=? 0) || is_blocked c y || (bal (s_cb s) x <? n) then XRefused      (* the bank refuses *)
+        else
+          match send (s_cb s) x y n with
+          | None => XStuck
+          | Some cb2 =>
+              let w1 := upd (s_wei s) x (to_wei (bal cb2 x)) in
+              let w2 := upd w1 y (to_wei (bal cb2 y)) in
+              match xsends c U r {| s_wei := w2; s_cb := cb2; s_snap := s_snap s |} with
+              | XDone s2 n2 => XDone s2 (OTransfer x y (to_wei n) :: n2)
+              | other => other
+              end
+          end
+      else XStuck
+  end.
+
 (** one precompile call (its own call frame).  Result: new state and the net effects. *)
-Definition xpre (journal_first : bool) (c : xcfg) (U : list nat) (bsend : option (nat * nat * Z)) (s : xst)
+Definition xpre (journal_first : bool) (c : xcfg) (U : list nat) (sends : list (nat * nat * Z)) (refuse : bool) (s : xst)
   : option (xst * list op) :=
-  let M := x_module c in
   let saved := s_cb s in                                   (* CacheCtxForPrecompile: copy of the cache multistore *)
   let '(cb1, ok) := commit2 c U (s_wei s) (s_cb s) in      (* CommitCacheCtx *)
   if negb ok then
@@ -99,23 +127,13 @@ Definition xpre (journal_first : bool) (c : xcfg) (U : list nat) (bsend : option
     Some ({| s_wei := s_wei s; s_cb := if journal_first then saved else cb1; s_snap := s_snap s |}, [])
   else
     let snap1 := match s_snap s with Some sn => Some sn | None => Some saved end in
-    match bsend with
-    | None => Some ({| s_wei := s_wei s; s_cb := cb1; s_snap := snap1 |}, [])
-    | Some (x, y, n) =>
-        if memb x U && memb y U && negb (Nat.eqb x M) && negb (Nat.eqb y M) then
-          if (n <=? 0) || is_blocked c y || (bal cb1 x <? n) then
-            (* the bank refuses: the precompile fails, its frame is reverted (the entry is journaled by now) *)
-            Some ({| s_wei := s_wei s; s_cb := saved; s_snap := s_snap s |}, [])
-          else
-            match send cb1 x y n with
-            | None => None
-            | Some cb2 =>
-                (* SyncStateDBWithAccount(from), SyncStateDBWithAccount(to): StateDB balance := bank balance x 10^12 *)
-                let w1 := upd (s_wei s) x (to_wei (bal cb2 x)) in
-                let w2 := upd w1 y (to_wei (bal cb2 y)) in
-                Some ({| s_wei := w2; s_cb := cb2; s_snap := snap1 |}, [OTransfer x y (to_wei n)])
-            end
-        else None
+    match xsends c U sends {| s_wei := s_wei s; s_cb := cb1; s_snap := snap1 |} with
+    | XStuck => None
+    | XRefused =>
+        (* the bank refuses: the precompile fails, its frame is reverted (the entry is journaled by now) *)
+        Some ({| s_wei := s_wei s; s_cb := saved; s_snap := s_snap s |}, [])
+    | XDone s2 net =>
+        if refuse then Some ({| s_wei := s_wei s; s_cb := saved; s_snap := s_snap s |}, []) else Some (s2, net)
     end.
 
 Fixpoint xexec (jf : bool) (c : xcfg) (U : list nat) (o : xop) (s : xst) {struct o} : option (xst * list op) :=
@@ -126,7 +144,7 @@ Fixpoint xexec (jf : bool) (c : xcfg) (U : list nat) (o : xop) (s : xst) {struct
            | Some w' => Some ({| s_wei := w'; s_cb := s_cb s; s_snap := s_snap s |}, [p])
            | None => if call_refused (s_wei s) p then Some (s, []) else None
            end
-  | XPre bsend => xpre jf c U bsend s
+  | XPre sends refuse => xpre jf c U sends refuse s
   | XFrame body keep =>
       match (fix go (l : list xop) (s' : xst) {struct l} : option (xst * list op) :=
                match l with
